@@ -11,6 +11,14 @@ import (
 	"pgregory.net/rapid"
 )
 
+type paraInner struct {
+	control.Paragraph
+}
+
+type paraDeepHolder struct {
+	paraInner
+}
+
 type paraHolder struct {
 	control.Paragraph
 }
@@ -156,6 +164,17 @@ func readAllWays(text string) (map[string][]control.Paragraph, error) {
 		pp = append(pp, h.Paragraph)
 	}
 	out["Unmarshal(&[]*T)"] = pp
+	// the Paragraph one level down, inside an embedded struct whose type name is not exported (a
+	// package's own "common members" struct)
+	var deep []paraDeepHolder
+	if err := control.Unmarshal(&deep, strings.NewReader(text)); err != nil {
+		return nil, errf("Unmarshal(&[]T) with the Paragraph embedded one level down: %v", err)
+	}
+	dd := []control.Paragraph{}
+	for _, h := range deep {
+		dd = append(dd, h.Paragraph)
+	}
+	out["Unmarshal(&[]T), Paragraph embedded one level down"] = dd
 	var pptrs []*control.Paragraph
 	if err := control.Unmarshal(&pptrs, strings.NewReader(text)); err != nil {
 		return nil, errf("Unmarshal(&[]*control.Paragraph): %v", err)
@@ -319,7 +338,7 @@ func readAllWays(text string) (map[string][]control.Paragraph, error) {
 
 var specC07Model = Register(&Spec[DocCase]{
 	Prop: "C07", Name: "model",
-	Rule: "deb822 documents rendered from a model: 0..5 paragraphs of 1..6 uniquely named fields ([A-Za-z0-9][A-Za-z0-9_.+-]*), ':' + 0..3 blanks, first line text (possibly empty; may contain ':' '#' UTF-8) with trailing blanks, 0..6 continuation lines - one field in twelve hundred 150..300 of them, several KiB - (marker space or tab, then ' .' or freely indented text, trailing blanks), '#' comment lines at every kind of line boundary, 1..3 blank lines between paragraphs, 0..2 before/after, LF or CRLF, final newline present or absent. Oracle: All(), a Next() loop, Unmarshal(&[]T) and a Decoder.Decode(&T) loop (T a struct embedding control.Paragraph, and T = control.Paragraph itself), Unmarshal(&[]*T) and Unmarshal(&[]*control.Paragraph), Unmarshal into a slice variable that held two elements before, Unmarshal into a variable that was decoded into before (the earlier result, kept by the caller, must still read as it did), one Next() followed by All(), one Decode(&T) followed by Decode(&[]T) on the same decoder, a Decode loop into ONE control.Paragraph variable that held something before, and two further readers read in turn while the first - at its end - is asked again and again (io.EOF every time) all return exactly the model paragraphs, and so does All() when the source is a one-byte-at-a-time reader, a half reader or a reader that delivers its last data together with io.EOF: Order = names in file order, value = first line if no continuation else logical lines joined by newline + trailing newline (a kept empty first line is accepted too). Non-trivial: >= 2 paragraphs, a continuation, a comment inside a field, CRLF or no final newline; distinct by text.",
+	Rule: "deb822 documents rendered from a model: 0..5 paragraphs of 1..6 uniquely named fields ([A-Za-z0-9][A-Za-z0-9_.+-]*), ':' + 0..3 blanks, first line text (possibly empty; may contain ':' '#' UTF-8) with trailing blanks, 0..6 continuation lines - one field in twelve hundred 150..300 of them, several KiB - (marker space or tab, then ' .' or freely indented text, trailing blanks), '#' comment lines at every kind of line boundary, 1..3 blank lines between paragraphs, 0..2 before/after, LF or CRLF, final newline present or absent. Oracle: All(), a Next() loop, Unmarshal(&[]T) and a Decoder.Decode(&T) loop (T a struct embedding control.Paragraph, and T = control.Paragraph itself), Unmarshal(&[]*T), Unmarshal(&[]*control.Paragraph) and Unmarshal(&[]T) with the Paragraph embedded one level down in a struct of unexported type name, Unmarshal into a slice variable that held two elements before, Unmarshal into a variable that was decoded into before (the earlier result, kept by the caller, must still read as it did), one Next() followed by All(), one Decode(&T) followed by Decode(&[]T) on the same decoder, a Decode loop into ONE control.Paragraph variable that held something before, and two further readers read in turn while the first - at its end - is asked again and again (io.EOF every time) all return exactly the model paragraphs, and so does All() when the source is a one-byte-at-a-time reader, a half reader or a reader that delivers its last data together with io.EOF: Order = names in file order, value = first line if no continuation else logical lines joined by newline + trailing newline (a kept empty first line is accepted too). Non-trivial: >= 2 paragraphs, a continuation, a comment inside a field, CRLF or no final newline; distinct by text.",
 	Check: func(c DocCase, r *Recorder) error {
 		nt := false
 		for _, f := range c.Feats {
@@ -336,7 +355,7 @@ var specC07Model = Register(&Spec[DocCase]{
 		if err != nil {
 			return errf("well-formed document %q: %v", c.Text, err)
 		}
-		for _, how := range []string{"All()", "Next() loop", "Unmarshal(&[]T)", "Decoder.Decode(&T) loop", "Unmarshal(&[]control.Paragraph)", "Decoder.Decode(&control.Paragraph) loop", "Next() then All()", "Decode(&T) then Decode(&[]T)", "Unmarshal(&[]*T)", "Unmarshal(&[]*control.Paragraph)", "Unmarshal(&[]T) into a slice that held two elements", "Decoder.Decode(&p) loop into one variable", "Unmarshal(&[]T) into a variable decoded into before", "Next() loop of a second reader, read in turn with a third", "Next() loop of a third reader, read in turn with the second"} {
+		for _, how := range []string{"All()", "Next() loop", "Unmarshal(&[]T)", "Decoder.Decode(&T) loop", "Unmarshal(&[]control.Paragraph)", "Decoder.Decode(&control.Paragraph) loop", "Next() then All()", "Decode(&T) then Decode(&[]T)", "Unmarshal(&[]*T)", "Unmarshal(&[]*control.Paragraph)", "Unmarshal(&[]T), Paragraph embedded one level down", "Unmarshal(&[]T) into a slice that held two elements", "Decoder.Decode(&p) loop into one variable", "Unmarshal(&[]T) into a variable decoded into before", "Next() loop of a second reader, read in turn with a third", "Next() loop of a third reader, read in turn with the second"} {
 			if err := parasMatch(ways[how], c.Want, how); err != nil {
 				return errf("document %q: %v", c.Text, err)
 			}
@@ -582,7 +601,7 @@ var specC07Edge = Register(&Spec[DocCase]{
 		if err != nil {
 			return errf("well-formed document of %d bytes (padding field in front): %v", len(c.Text), err)
 		}
-		for _, how := range []string{"All()", "Next() loop", "Unmarshal(&[]T)", "Decoder.Decode(&T) loop", "Unmarshal(&[]control.Paragraph)", "Decoder.Decode(&control.Paragraph) loop", "Next() then All()", "Decode(&T) then Decode(&[]T)", "Unmarshal(&[]*T)", "Unmarshal(&[]*control.Paragraph)", "Unmarshal(&[]T) into a slice that held two elements", "Decoder.Decode(&p) loop into one variable", "Unmarshal(&[]T) into a variable decoded into before", "Next() loop of a second reader, read in turn with a third", "Next() loop of a third reader, read in turn with the second"} {
+		for _, how := range []string{"All()", "Next() loop", "Unmarshal(&[]T)", "Decoder.Decode(&T) loop", "Unmarshal(&[]control.Paragraph)", "Decoder.Decode(&control.Paragraph) loop", "Next() then All()", "Decode(&T) then Decode(&[]T)", "Unmarshal(&[]*T)", "Unmarshal(&[]*control.Paragraph)", "Unmarshal(&[]T), Paragraph embedded one level down", "Unmarshal(&[]T) into a slice that held two elements", "Decoder.Decode(&p) loop into one variable", "Unmarshal(&[]T) into a variable decoded into before", "Next() loop of a second reader, read in turn with a third", "Next() loop of a third reader, read in turn with the second"} {
 			if err := parasMatch(ways[how], c.Want, how); err != nil {
 				return errf("document of %d bytes with a %d-byte padding line: %v", len(c.Text), len(c.Want[0].Values["Pad-Field"]), err)
 			}
